@@ -17,7 +17,9 @@ def main():
     ran = []
     def suite():
         rc, out = sh("cargo test --workspace --no-fail-fast --offline 2>&1 | grep -E '^test result|^error' ")
-        ok = "FAILED" not in out and "error" not in out and "33 passed" in out
+        # a change may bring unit tests of its own: the 33 existing ones must pass, more may
+        m = re.search(r"test result: ok\. (\d+) passed", out)
+        ok = "FAILED" not in out and "error" not in out and m is not None and int(m.group(1)) >= 33
         return ok, out
     def run_demo():
         shutil.copy(demo, "%s/tests/%s.rs" % (W, demo_name))
